@@ -403,6 +403,127 @@ def tree_case(ctx, nodes):
     return out
 
 
+
+# ------------------------------------------------------------------------- implied values as the schema documents them
+@lru_cache(maxsize=None)
+def documented_implied_values() -> dict:
+    """{(namespace, complex type name): (base type key | None, {attribute name: literal})} read from the annotations of the
+    bundled schemas ('... The implied value SHALL be "Real".')."""
+    from sdc11073.namespaces import schema_folder
+    xs = '{http://www.w3.org/2001/XMLSchema}'
+    out = {}
+    for path in sorted(schema_folder.glob('BICEPS_*.xsd')):
+        tree = etree.parse(str(path))
+        root = tree.getroot()
+        tns = root.get('targetNamespace')
+        nsmap = root.nsmap
+        for ct in root.iter(f'{xs}complexType'):
+            name = ct.get('name')
+            if not name:
+                # an anonymous type of a local element (e.g. pm:MetricQuality): keyed by the element name
+                holder = ct.getparent()
+                if holder is None or holder.tag != f'{xs}element' or not holder.get('name'):
+                    continue
+                name = 'element:' + holder.get('name')
+            base = None
+            ext = ct.find(f'{xs}complexContent/{xs}extension')
+            if ext is None:
+                ext = ct.find(f'{xs}simpleContent/{xs}extension')
+            if ext is not None and ext.get('base') and ':' in ext.get('base'):
+                prefix, local = ext.get('base').split(':')
+                base = (nsmap.get(prefix), local)
+            attrs = {}
+            for at in ct.iter(f'{xs}attribute'):
+                owner = at.getparent()
+                while owner is not None and owner.tag != f'{xs}complexType':
+                    owner = owner.getparent()
+                if owner is not ct or not at.get('name'):
+                    continue
+                doc = ' '.join(''.join(d.itertext()) for d in at.iter(f'{xs}documentation'))
+                m = re.search(r'implied value SHALL be "([^"]*)"', doc)
+                if m:
+                    attrs[at.get('name')] = m.group(1)
+            out[(tns, name)] = (base, attrs)
+    return out
+
+
+def implied_for_class(cls) -> dict:
+    """{attribute name: documented implied literal} for a class with a named schema type (own type and its bases)."""
+    nt = getattr(cls, 'NODETYPE', None)
+    table = documented_implied_values()
+    key = (nt.namespace, nt.localname) if isinstance(nt, etree.QName) else None
+    if key not in table:
+        # data types without a named schema type carry the name of the element they are the anonymous type of
+        names = {cls.__name__} | ({nt.localname} if isinstance(nt, etree.QName) else set())
+        keys = [k for k in table if k[1].startswith('element:') and k[1][len('element:'):] in names]
+        if len(keys) != 1:
+            return {}
+        key = keys[0]
+    found = {}
+    seen = set()
+    while key in table and key not in seen:
+        seen.add(key)
+        base, attrs = table[key]
+        for k, v in attrs.items():
+            found.setdefault(k, v)
+        key = base
+    return found
+
+
+def implied_part(ctx):
+    """For every class with a named schema type and every attribute whose implied value the schema documents: an
+    instance read from XML in which that attribute is absent has that value."""
+    from sdc11073.xml_types import xml_structure as xs_
+    n = 0
+    for cname, cls in sorted(T.all_classes().items()):
+        if cname in EXCLUDED:
+            continue
+        want = implied_for_class(cls)
+        if not want:
+            continue
+        try:
+            obj = T.new_instance(cls)
+            props = obj.sorted_container_properties()
+        except Exception:  # noqa: BLE001
+            continue
+        for member, prop in props:
+            attr = getattr(prop, '_attribute_name', None)
+            if attr not in want or not isinstance(prop, xs_._AttributeBase):  # noqa: SLF001
+                continue
+            literal = want[attr]
+            case = {'cls': cname, 'member': member, 'literal': literal}
+            n += 1
+            ctx.case(case, True, 'implied')
+            for sig, detail in implied_one(case):
+                ctx.finding(sig, detail, case, 'implied')
+    ctx.count('implied/attributes', n)
+
+
+def implied_one(case):
+    cls = T.all_classes()[case['cls']]
+    member, literal = case['member'], case['literal']
+    cname = case['cls'].split('.')[-1]
+    obj = T.new_instance(cls)
+    prop = dict(obj.sorted_container_properties())[member]
+    try:
+        node, _ctx = to_xml(obj)
+        attr = prop._attribute_name  # noqa: SLF001
+        if attr in node.attrib:
+            del node.attrib[attr]
+        back = from_xml(cls, etree.fromstring(etree.tostring(node)))
+        got = getattr(back, member)
+        expected = prop._converter.to_py(literal)  # noqa: SLF001
+    except Exception as ex:  # noqa: BLE001
+        if not R.exc_in_library(ex):
+            raise
+        return []  # (classes that cannot be written / read with default content are judged by the round-trip part)
+    if got != expected and str(getattr(got, 'value', got)) != literal:
+        return [(f'{P}/implied-value/{cname}.{member}',
+                 f'{cname} read from XML without @{prop._attribute_name}: {member} = {got!r}, the schema documents the '  # noqa: SLF001
+                 f'implied value "{literal}"')]
+    return []
+
+
 # ------------------------------------------------------------------------------------- mex Metadata (hand-written reader)
 MEX = 'sdc11073.xml_types.mex_types.'
 SECTION_CLASSES = ('ThisModelMetadataSection', 'ThisDeviceMetadataSection', 'RelationshipMetadataSection',
@@ -510,6 +631,8 @@ def shard_tree(ctx, n):
 
 
 def shard_all(ctx, names, per_class, n_tree, n_metadata):
+    if ctx.shard == 1:
+        implied_part(ctx)
     shard_metadata(ctx, n_metadata)
     shard_tree(ctx, n_tree)
     shard_classes(ctx, names, per_class)
@@ -548,5 +671,7 @@ def replay(part, case):
         return tree_case(R.Ctx(P, 'quick', 0, {}), case)
     if part == 'metadata':
         return metadata_case(R.Ctx(P, 'quick', 0, {}), case)
+    if part == 'implied':
+        return implied_one(case)
     found, _ = check_spec(case)
     return found
